@@ -266,6 +266,10 @@ ssize_t __wrap_recvfrom(int fd, void *buf, size_t cap, int flags, struct sockadd
 		memcpy(sa, &ss, l); *alen = d.src.fam == AF_INET6 ? sizeof(struct sockaddr_in6) : sizeof(struct sockaddr_in);
 	}
 	S->residue_prev = d.data;
+#ifdef IOSIM_VG
+	// memcheck flavour: what lies beyond the datagram is nobody's data - a branch or address that depends on it is reported
+	if (cap > n) (void)VALGRIND_MAKE_MEM_UNDEFINED((char *)buf + n, cap - n);
+#endif
 	return (ssize_t)n;
 }
 
@@ -314,6 +318,9 @@ ssize_t __wrap_recvmsg(int fd, struct msghdr *msg, int flags)
 	msg->msg_controllen = clen;
 	msg->msg_flags = d.data.size() > cap ? MSG_TRUNC : 0;
 	S->residue_prev = d.data;
+#ifdef IOSIM_VG
+	if (buf && cap > n) (void)VALGRIND_MAKE_MEM_UNDEFINED((char *)buf + n, cap - n);
+#endif
 	return (ssize_t)n;
 }
 
